@@ -34,6 +34,15 @@ func main() {
 	seed, _ := strconv.ParseInt(os.Getenv("VERIF_SEED"), 10, 64)
 	started := time.Now()
 	code := 2
+	// watchdog: an analysis that does not end is reported as "tree not analysable" (exit 2), never as a verdict
+	limit := 15 * time.Minute
+	if d, err := time.ParseDuration(os.Getenv("VERIF_TIME_LIMIT")); err == nil && d > 0 {
+		limit = d
+	}
+	time.AfterFunc(limit, func() {
+		fmt.Printf("ERROR analysis of %s did not end within %s\n", prop, limit)
+		os.Exit(2)
+	})
 	func() {
 		defer func() {
 			if r := recover(); r != nil {
